@@ -82,7 +82,11 @@ class VectorContainer:
     def _locate_period_in_span_fallback(period: Hashable, span: np.ndarray) -> int:
         """Fallback (static) location method, should other `span`-indexing methods fail."""
         # Convert `span` to a NumPy array of type `object` and locate matches
-        locations = np.asarray(np.asarray(span, dtype=object) == period).nonzero()
+        # (wrap `period` in a 0-d object array so that a tuple label is compared
+        # as ONE label, rather than being broadcast element-wise against `span`)
+        target = np.empty((), dtype=object)
+        target[()] = period
+        locations = np.asarray(np.asarray(span, dtype=object) == target).nonzero()
 
         # For now(?), only support one-dimensional array-likes
         assert len(locations) == 1
@@ -358,6 +362,19 @@ class VectorContainer:
             f'expected one of the following, as listed in `self._VALID_INDEX_METHODS`: '
             f'{self._VALID_INDEX_METHODS}'
         )
+
+    def _period_in_span(self, period: Hashable) -> bool:
+        """Return `True` if `period` is one of the labels in `self.span`."""
+        span = self.__dict__['span']
+
+        # NumPy arrays test membership element-wise (and broadcast tuples):
+        # compare against `period` as a single object instead
+        if isinstance(span, np.ndarray):
+            target = np.empty((), dtype=object)
+            target[()] = period
+            return bool(np.any(np.asarray(span, dtype=object) == target))
+
+        return period in span
 
     def _resolve_period_slice(self, index: slice) -> Tuple[int]:
         """Convert a slice into a 3-tuple of indexing information to use with `self.span`."""
@@ -722,7 +739,7 @@ class VectorContainer:
         #            get the old values from)
         positions = {}
         for i, period in enumerate(span):
-            if period in self.span:
+            if self._period_in_span(period):
                 positions[i] = self._locate_period_in_span(period)
 
         # Copy the current object and adjust:
